@@ -2,6 +2,7 @@ import Thanos.Common.Parse
 import Thanos.Model.Prune
 import Thanos.Model.Pool
 import Thanos.Model.Merge
+import Thanos.Model.Ring
 /-
   Line-protocol driver of the `proxy` family (C03 C05 C06 C17).
   One request per line, one answer per line; every line is self-contained.
@@ -280,6 +281,8 @@ end pool
   ops:
     lt.merge <maxVal> <ints (',') per sequence, sequences separated by '|'>   pkg/losertree on integers
         -> <merged ints> closed=<leaf positions in close order>
+    ring.run <maxBuffered> <a<k> | p (',' …)>          the ring buffer of lazyRespSet (append skipped when full, pop when empty)
+        -> <popped values> h=<ringHead> t=<ringTail>
     merge.dedup <frame (';' frame)*>                   NewResponseDeduplicator over a fixed stream
         -> <frames>
     merge.series <lazy> <bufsize> <batch> <limit> <abort> <dedup> <sharded> <without names | -> <stores>
@@ -420,6 +423,15 @@ def handleMerge : List String → Option String
     let t := LoserTree.new seqs mx (lessNat mx)
     let (out, tf) := LoserTree.drain ((seqs.map List.length).sum + 1) t
     pure s!"{showNats "," out} closed={showNats "," (tf.closed.map (· - seqs.length))}"
+  | ["ring.run", size, script] => do
+    -- the ring buffer of lazyRespSet: a<k> = append k (skipped when full), p = pop (skipped when empty)
+    let size ← parseNat? size
+    let ops ← (listOf ',' script).mapM (fun s => match s.toList with
+      | 'a' :: r => (parseNat? (String.ofList r)).map Ring.Op.app
+      | ['p'] => some Ring.Op.pop
+      | _ => none)
+    let (vs, rf) := Ring.run (Ring.Ring.new size : Ring.Ring Nat) ops
+    pure s!"{joinWith "," (vs.map fun v => match v with | some k => toString k | none => "nil")} h={rf.head} t={rf.tail}"
   | ["merge.dedup", frames] => do
     let fs ← (listOf ';' frames).mapM parseFrame?
     pure (joinWith ";" ((dedup fixedDedup fs).map showFrame))
@@ -450,7 +462,7 @@ def handle (toks : List String) : String :=
   | op :: _ =>
     if op.startsWith "prune." then (handlePrune toks).getD "bad-op"
     else if op.startsWith "bpool." || op.startsWith "pool." then (handlePool toks).getD "bad-op"
-    else if op.startsWith "lt." || op.startsWith "merge." then (handleMerge toks).getD "bad-op"
+    else if op.startsWith "lt." || op.startsWith "merge." || op.startsWith "ring." then (handleMerge toks).getD "bad-op"
     else "bad-op"
 
 end Thanos.Driver.Proxy
